@@ -80,7 +80,7 @@ C13_EllipsoidIsNormalisedSumLeq1 ==
         /\ v \in out.in <=> InEllX(v, case.c, case.rr)
         /\ InEllX(v, case.c, case.rr) <=> InEllE(v, case.c, case.rr)
         /\ OnEllX(v, case.c, case.rr) <=> OnEllE(v, case.c, case.rr)
-        /\ v \in out.skip <=> OnEllX(v, case.c, case.rr) /\ NonZeroOffsets(v, case.c) > 1
+        /\ v \in out.skip <=> OnEllX(v, case.c, case.rr) /\ NonZeroOffsets(v, case.c) > 1 /\ ~CalibratedRadii(case.rr)
 
 C13_SphereShellIsOuterMinusInner ==
     Shape("sshell") =>
@@ -109,7 +109,7 @@ C13_SolidsCentredAndNested ==
 
 C13_NameBuildsSameShape ==
     Shape("name") =>
-        LET n == NameBox(case.kind, case.nums, case.size)
+        LET n == NameBox(case.kind, case.nums, case.size, case.exp)
             c == DefaultCentre(n)
             direct == CASE case.kind = "sphere"    -> [shape |-> "sphere", n |-> n, c |-> c, dc |-> TRUE, r |-> case.nums[1]]
                         [] case.kind = "cylinder"  -> [shape |-> "cyl", n |-> n, c |-> c, dc |-> TRUE, r |-> case.nums[1], h |-> case.nums[2]]
@@ -163,6 +163,6 @@ EmitTR ==
                            union |-> LinSet(n, out'.union), inter |-> LinSet(n, out'.inter),
                            sub |-> LinSet(n, out'.sub), diffdef |-> out'.diffdef, diff |-> LinSet(n, out'.diff)]))
        ELSE PrintT(ToJson([case |-> case, n |-> n,
-                           name |-> IF case.shape = "name" THEN NameOf(case.kind, case.nums) ELSE "",
+                           name |-> IF case.shape = "name" THEN NameOf(case.kind, case.nums, case.pad) ELSE "",
                            in |-> LinSet(n, out'.in), skip |-> LinSet(n, out'.skip)]))
 =============================================================================
